@@ -35,6 +35,9 @@ func peerOf(side ref.Side) ref.Side {
 // on `side` through `entry` and returns what was written and the error.
 func runControl(c *mon.C, entry string, side ref.Side, op byte, payload []byte, plan xport.Plan) (written []byte, err error) {
 	st := wsx.State(side, false, false)
+	// hst is the state value handed to the HANDLERS: only its side bit matters to them; a connection with a
+	// negotiated extension carries StateExtended, and a handler set up in the middle of a message StateFragmented
+	hst := st | []ws.State{0, ws.StateExtended, ws.StateFragmented, ws.StateExtended | ws.StateFragmented}[(len(payload)+int(op)+c.I)%4]
 	dst := xport.NewRec()
 	defer func() { written = dst.Bytes() }()
 	h := ref.Header{Fin: true, Op: op, Length: int64(len(payload)), Masked: side == ref.SideServer}
@@ -49,7 +52,7 @@ func runControl(c *mon.C, entry string, side ref.Side, op byte, payload []byte, 
 	wh := wsx.ToWS(h)
 	switch entry {
 	case "Handle", "HandleX":
-		ch := wsutil.ControlHandler{Src: xport.NewChunker(wire, plan), Dst: dst, State: st}
+		ch := wsutil.ControlHandler{Src: xport.NewChunker(wire, plan), Dst: dst, State: hst}
 		if entry == "Handle" {
 			return nil, ch.Handle(wh)
 		}
@@ -63,12 +66,12 @@ func runControl(c *mon.C, entry string, side ref.Side, op byte, payload []byte, 
 		}
 	case "Handle-presrc":
 		// payload already pulled and unmasked by the application
-		ch := wsutil.ControlHandler{Src: xport.NewChunker(payload, plan), Dst: dst, State: st, DisableSrcCiphering: true}
+		ch := wsutil.ControlHandler{Src: xport.NewChunker(payload, plan), Dst: dst, State: hst, DisableSrcCiphering: true}
 		return nil, ch.Handle(wh)
 	case "Handle-unmasked-header":
 		uh := wh
 		uh.Masked, uh.Mask = false, [4]byte{}
-		ch := wsutil.ControlHandler{Src: xport.NewChunker(payload, plan), Dst: dst, State: st}
+		ch := wsutil.ControlHandler{Src: xport.NewChunker(payload, plan), Dst: dst, State: hst}
 		if c.Rng.Intn(2) == 0 {
 			ch.DisableSrcCiphering = true
 		}
@@ -79,14 +82,14 @@ func runControl(c *mon.C, entry string, side ref.Side, op byte, payload []byte, 
 		if e != nil {
 			return nil, fmt.Errorf("harness: NextFrame: %v", e)
 		}
-		return nil, wsutil.ControlFrameHandler(dst, st)(hdr, rd)
+		return nil, wsutil.ControlFrameHandler(dst, hst)(hdr, rd)
 	case "ControlFrameHandler-intermediate":
 		mk := func(op byte, fin bool, p []byte) []byte {
 			fh := ref.Header{Fin: fin, Op: op, Masked: h.Masked, Mask: h.Mask}
 			return ref.Frame{H: fh, Payload: p}.Encode()
 		}
 		stream := append(append(mk(ref.OpBinary, false, []byte("ab")), frame...), mk(ref.OpCont, true, []byte("cd"))...)
-		rd := &wsutil.Reader{Source: xport.NewChunker(stream, plan), State: st, OnIntermediate: wsutil.ControlFrameHandler(dst, st)}
+		rd := &wsutil.Reader{Source: xport.NewChunker(stream, plan), State: st, OnIntermediate: wsutil.ControlFrameHandler(dst, hst)}
 		if _, e := rd.NextFrame(); e != nil {
 			return nil, fmt.Errorf("harness: NextFrame: %v", e)
 		}
@@ -112,7 +115,7 @@ func runControl(c *mon.C, entry string, side ref.Side, op byte, payload []byte, 
 				data, _, e = wsutil.ReadServerData(rw)
 			}
 		} else {
-			rd := &wsutil.Reader{Source: xport.NewChunker(stream, plan), State: st, CheckUTF8: true, OnIntermediate: wsutil.ControlFrameHandler(dst, st)}
+			rd := &wsutil.Reader{Source: xport.NewChunker(stream, plan), State: st, CheckUTF8: true, OnIntermediate: wsutil.ControlFrameHandler(dst, hst)}
 			if _, e := rd.NextFrame(); e != nil {
 				return nil, fmt.Errorf("harness: NextFrame: %v", e)
 			}
@@ -123,7 +126,7 @@ func runControl(c *mon.C, entry string, side ref.Side, op byte, payload []byte, 
 		}
 		return nil, e
 	case "HandleControlMessage":
-		return nil, wsutil.HandleControlMessage(dst, st, wsutil.Message{OpCode: ws.OpCode(op), Payload: append([]byte(nil), payload...)})
+		return nil, wsutil.HandleControlMessage(dst, hst, wsutil.Message{OpCode: ws.OpCode(op), Payload: append([]byte(nil), payload...)})
 	case "HandleSideControlMessage":
 		m := wsutil.Message{OpCode: ws.OpCode(op), Payload: append([]byte(nil), payload...)}
 		if side == ref.SideServer {
